@@ -118,6 +118,13 @@ def gen_cfg(rng, real_frac=0.06, allow_long=True, engines=None):
     return cfg
 
 
+PINNED_XLESMD_TRANSITION_PROPERTIES = {
+    "engine": "xl_esmd", "driver": "real", "batch": ["h2co"], "steps": 4, "n_states": 2, "active_state": 1, "scf_eps": 1.0e-8, "dt": 0.2, "temp": 300.0, "k": 3,
+    "out": {"molid": [0], "print": 0, "ckpt": 1, "xyz": 0, "h5": {"data": 1, "coordinates": 1, "velocities": 0, "forces": 0, "transition_properties": 1}},
+    "reuse_P": True, "remove_com": None,
+}  # fmt: skip
+
+
 def gen_fault_plan(rng, io_seam=True):
     n = rng.choices([1, 2, 3], [0.6, 0.3, 0.1])[0]
     plan = []
@@ -350,7 +357,7 @@ def _execute(record, cfg, root):
             if injected:
                 crashed = True
             else:
-                cls = _classify(torn_files, "resume-failed", r.get("exc"), None)
+                cls = _classify(torn_files, "resume-failed", r.get("exc"), None, cfg=cfg, mode=mode)
                 failures.append(
                     core.fail(
                         "incarnation-failed",
@@ -492,8 +499,22 @@ def _site(fired):
     return s
 
 
-def _classify(torn_files, what, exc, files):
+def _classify(torn_files, what, exc, files, cfg=None, mode=None):
     """Site/history classification used to match the committed known-findings predicates."""
+    if (
+        cfg is not None
+        and what == "resume-failed"
+        and mode == "resume"
+        and cfg["engine"] == "xl_esmd"
+        and cfg["driver"] == "real"
+        and int(cfg["out"]["h5"].get("transition_properties", 0))
+        and int(cfg["out"]["h5"].get("data", 0)) > 0
+        and exc
+        and exc.get("type") == "TypeError"
+        and "transition_dipole" in (exc.get("tb") or "")
+    ):
+        # production XL-ESMD never recomputes transition dipoles / oscillator strengths after its initial evaluation
+        return {"site": "xlesmd-transition-properties"}
     if torn_files:
         if what == "resume-failed" and exc and "h5py" in ((exc.get("tb") or "") + (exc.get("msg") or "")):
             return {"site": "h5-torn-flush"}
@@ -532,7 +553,13 @@ class C10(core.Check):
                 cfg["out"]["ckpt"] = 2
                 cfg["out"]["h5"].update(data=1, coordinates=1, nonadiabatic=1)
             io_seam = rng.random() >= 0.15
-            recs.append({"i": i, "cfg": cfg, "io_seam": io_seam, "fault_plan": gen_fault_plan(rng, io_seam)})
+            plan = gen_fault_plan(rng, io_seam)
+            if i == 4:
+                # pinned known finding: production XL-ESMD with transition properties requested, interrupted and resumed
+                cfg = dict(PINNED_XLESMD_TRANSITION_PROPERTIES, seed=cfg["seed"], rotate=rng.randrange(1 << 30))
+                io_seam = True
+                plan = [{"kind": "soft@step", "stratum": "uniform", "u": [0.9, 0.0, 0.9, 0.0], "torn": None, "in_init": False}]
+            recs.append({"i": i, "cfg": cfg, "io_seam": io_seam, "fault_plan": plan})
         return recs
 
     def shrink_candidates(self, rec):
